@@ -149,6 +149,23 @@ pub fn c08(ctx: &Ctx) -> ! {
         absorb(&mut out, &rep, &known);
         out.bump(if esm { "evaluations_import_esm" } else { "evaluations_default" }, rep["evaluations"].as_u64().unwrap_or(0));
     }
+    // coverage-guided campaign on the same oracle (thorough tier; quick runs a short one)
+    let runs = if ctx.thorough() { 2_000_000 } else { 150_000 };
+    for dir in ["fuzz", "fuzz_esm"] {
+        match subjects::run_fuzz(ctx, dir, "import_path", runs) {
+            Ok((v, execs)) => {
+                out.evaluations += execs;
+                out.bump("libfuzzer_executions", execs);
+                if let Some(v) = v {
+                    out.take_failures(&[v], &known);
+                }
+            }
+            Err(e) => inconclusive(&format!("cargo fuzz ({dir}/import_path) failed: {e}")),
+        }
+        if !ctx.thorough() {
+            break;
+        }
+    }
     out.exhaustive = Some(false);
     finish(ctx, "C08", out)
 }
@@ -162,4 +179,15 @@ pub fn c05_text(ctx: &Ctx, out: &mut Outcome, known: &[Known]) {
     let rep = run_purefn(ctx, "purefn", &args);
     absorb(out, &rep, known);
     out.bump("text_level_histories", rep["evaluations"].as_u64().unwrap_or(0));
+    let runs = if ctx.thorough() { 300_000 } else { 6_000 };
+    match subjects::run_fuzz(ctx, "fuzz", "merge", runs) {
+        Ok((v, execs)) => {
+            out.evaluations += execs;
+            out.bump("libfuzzer_executions", execs);
+            if let Some(v) = v {
+                out.take_failures(&[v], known);
+            }
+        }
+        Err(e) => inconclusive(&format!("cargo fuzz (merge) failed: {e}")),
+    }
 }
